@@ -598,45 +598,42 @@ func undecidedSkipRule(p *Prog, r *Report, rule string) {
 		// the converse (needed by a node that was reset from a frame): an undecided round AT OR BELOW the reset point —
 		// such rounds are never processed by DecideFame again — does not end the search
 		okConv, convAt := true, ""
-		// the edge on which "*roundLowerBound >= i" holds (below the undecided test): every path from it returns to the
-		// loop head — it does not leave the loop
-		nLB := 0
+		// from every edge on which the round is found undecided, the loop head stays reachable inside the loop: the search
+		// CAN step over the round (under which condition it may is the other obligation). With `continue` turned into
+		// `break` no such path exists.
+		nU := 0
 		for b := range lp.body {
-			if len(b.Succs) != 2 || !wd.Block().Dominates(b) {
+			if len(b.Succs) != 2 {
 				continue
 			}
 			for _, sx := range b.Succs {
 				l, ok := edgeLit(b, sx)
-				if !ok || !qLB(l) {
+				if !ok || !qUndecided(l) || !lp.body[sx] {
 					continue
 				}
-				if g, _ := p.allPathsEdge(b, sx, []Pred{qUndecided}, all(1)); !g {
-					continue // not under the undecided test
+				nU++
+				back := false
+				if sx == lp.head {
+					back = true
 				}
-				nLB++
 				forwardFromEdge(b, sx, func(cur *ssa.BasicBlock) bool {
+					if back {
+						return false
+					}
 					if cur == lp.head {
+						back = true
 						return false
 					}
-					if !lp.body[cur] {
-						isErr := false
-						for _, pr := range cur.Preds {
-							if lp.body[pr] && errorExit(pr, cur) {
-								isErr = true
-							}
-						}
-						if !isErr {
-							okConv = false
-							convAt = p.ipos(cur.Instrs[0])
-						}
-						return false
-					}
-					return true
+					return lp.body[cur]
 				})
+				if !back {
+					okConv = false
+					convAt = p.ipos(b.Instrs[len(b.Instrs)-1])
+				}
 			}
 		}
-		if nLB == 0 {
-			okConv, convAt = false, "no such edge found"
+		if nU == 0 {
+			okConv, convAt = false, "no edge on which the round is undecided stays in the loop"
 		}
 		r.Check(okConv, rule, "DecideRoundReceived:undecided-round-below-the-reset-point-is-stepped-over", p.ipos(wd), fnName(fn), "an undecided round at or below the reset point does not end the search",
 			"the search for a round-received can stop (at "+convAt+") at an undecided round i with *roundLowerBound >= i: after a fast-forward those rounds stay undecided for ever, so the events above the frame would never be received on the reset node while the other nodes commit them")
